@@ -34,4 +34,33 @@ theorem lruShouldEvict_eq (c : LRU.Cap) :
     simp only [h, h', ↓reduceIte, decide_false, Bool.false_eq_true, gt_iff_lt, dec_natCast_lt]
 
 
+/-! ### the byte counter of the size-bounded LRU (`currentCapacityInBytes`): every statement of the source that changes it is
+    translated (mode `effect`) and is the model's update -/
+
+theorem lruBytes_leaves :
+    Gen.lruBytesAfterAdd_leaves = ["c.currentCapacityInBytes : Int", "sizeInBytes : Int"] ∧
+    Gen.lruBytesAfterRemove_leaves = ["c.currentCapacityInBytes : Int", "kv.size : Int"] ∧
+    Gen.lruBytesAfterResize_leaves = ["c.currentCapacityInBytes : Int", "sizeInBytes : Int", "v.size : Int"] := ⟨rfl, rfl, rfl⟩
+
+/-- `addNew`: the counter grows by the declared size -/
+theorem lruBytes_addNew (c : LRU.Cap) (k v : Bytes) (size : Int) :
+    (c.addNew k v size).bytes = Gen.lruBytesAfterAdd (c_currentCapacityInBytes := c.bytes) (sizeInBytes := size) := rfl
+
+/-- `removeElement` (eviction of the oldest entry and `Remove`): the counter shrinks by the size stored with the entry -/
+theorem lruBytes_removeOldest (c : LRU.Cap) (e : LRU.Entry) (h : c.entries.getLast? = some e) :
+    c.removeOldest.1.bytes = Gen.lruBytesAfterRemove (c_currentCapacityInBytes := c.bytes) (kv_size := e.size) := by
+  simp only [LRU.Cap.removeOldest, h, Gen.lruBytesAfterRemove]
+theorem lruBytes_remove (c : LRU.Cap) (k : Bytes) (e : LRU.Entry) (h : c.find k = some e) :
+    (c.remove k).1.bytes = Gen.lruBytesAfterRemove (c_currentCapacityInBytes := c.bytes) (kv_size := e.size) := by
+  simp only [LRU.Cap.remove, h, Gen.lruBytesAfterRemove]
+
+/-- `adjustSize` run on an entry whose stored size is `stored`: the counter loses the stored size and gains the new one.  In
+    `update` the source first adds `size − old` and stores `size`, then runs `adjustSize` (stored = size, a net zero): together
+    the model's `bytes + (size − old.size)` -/
+theorem lruBytes_update_eq_source (bytes size old : Int) :
+    bytes + (size - old) =
+      Gen.lruBytesAfterResize (c_currentCapacityInBytes := bytes + (size - old)) (v_size := size) (sizeInBytes := size) ∧
+    bytes + (size - old) = Gen.lruBytesAfterResize (c_currentCapacityInBytes := bytes) (v_size := old) (sizeInBytes := size) := by
+  simp only [Gen.lruBytesAfterResize]; omega
+
 end SV.GenProofs
